@@ -11,6 +11,7 @@ sys.path.insert(0, os.path.join(VERIF, 'lib')); sys.path.insert(0, os.path.join(
 import props, runner  # noqa: E402
 
 out = {}
+sigs = {}
 for un, ud in props.UNITS.items():
     mod = importlib.import_module(ud.get('module', un))
     u = getattr(mod, ud.get('builder', 'build'))()
@@ -22,9 +23,12 @@ for un, ud in props.UNITS.items():
         if c is not None and c.stub:
             continue
         out.setdefault(k, m['skeleton'])
+        if m.get('params') is not None:
+            sigs.setdefault(k, m['params'])
 f = os.path.join(VERIF, 'lib', 'skeletons.json')
 if '--write' in sys.argv:
     json.dump(out, open(f, 'w'), indent=0, sort_keys=True)
+    json.dump(sigs, open(os.path.join(VERIF, 'lib', 'signatures.json'), 'w'), indent=0, sort_keys=True)
     print('written %d skeletons' % len(out))
 else:
     ref = json.load(open(f))
